@@ -54,6 +54,10 @@ def ms(t):
 def fn_sx(fn):
     if fn[0] == "raiseat":
         return ["raiseat", fn[1], fn_sx(fn[2])]
+    if fn[0] == "truthy":
+        return ["ne", 0]                      # the value itself is the result: 0 is falsy, every other int truthy
+    if fn[0] == "or":
+        return ["or", fn_sx(fn[1]), fn_sx(fn[2])]
     return [fn[0], fn[1]]
 
 
@@ -61,6 +65,8 @@ def fn_src(fn, var):
     op = {"gt": ">", "ge": ">=", "eq": "==", "ne": "!="}
     if fn[0] == "raiseat":
         return f"(1 // ({var} - {fn[1]})) * 0 == 0 and ({fn_src(fn[2], var)})"
+    if fn[0] == "truthy":
+        return var
     return f"{var} {op[fn[0]]} {fn[1]}"
 
 
@@ -70,6 +76,11 @@ def fn_py(fn, v):
         if v == fn[1]:
             raise ZeroDivisionError()
         return fn_py(fn[2], v)
+    if fn[0] == "truthy":
+        return bool(v)
+    if fn[0] == "or":
+        a, b = fn_py(fn[1], v), fn_py(fn[2], v)       # any([a, b]): both are evaluated
+        return a or b
     return {"gt": v > fn[1], "ge": v >= fn[1], "eq": v == fn[1], "ne": v != fn[1]}[fn[0]]
 
 
@@ -78,6 +89,8 @@ def state_model_fn(fn):
 
 
 def gen_fn(rng, raising):
+    if rng.random() < 0.15:
+        return ["truthy"]
     f = [rng.choice(["gt", "ge", "eq", "ne"]), rng.randint(0, 5)]
     if raising and rng.random() < 0.3:
         f = ["raiseat", rng.randint(0, 6), f]
@@ -111,7 +124,15 @@ def gen_scenario(rng):
     if rng.random() < 0.2:
         cfg["mqtt"] = {"parse_ok": rng.random() < 0.65}
     if rng.random() < (0.65 if holds else 0.5):
-        cfg["timeout"] = rng.choice([1, 2.5, 4, 4] if holds else [0, 0, 1, 2.5, 4])
+        cfg["timeout"] = rng.choice([1, 2.5, 4, 4] if holds else [0, 0.0, 0.001, 1, 2.5, 4])
+    # argument forms: a string, a list of one, (state) a list of two expressions, (time) a list with an expired entry
+    if cfg["state"] and not holds and rng.random() < 0.2:
+        cfg["state"]["fn2"] = gen_fn(rng, False)
+    for k in ("state", "event", "mqtt"):
+        if cfg[k] and rng.random() < 0.3:
+            cfg[k]["as_list"] = True
+    if cfg["time"] and rng.random() < 0.4:
+        cfg["time"] = cfg["time"] + [rng.choice(["list", "list+expired"])]
     call = rng.choice([1.1, 2.1])
     tl = []
     v = rng.choice([0, 1, 5, 6]) if holds else rng.randint(0, 6)
@@ -138,7 +159,11 @@ def gen_scenario(rng):
         else:
             tl.append([t, ["e", rng.randint(0, 8)]])
     pre = {"state_fn": rng.random() < 0.3, "event_fn": rng.random() < 0.3, "mqtt_fn": rng.random() < 0.2}
-    return {"cfg": cfg, "call": call, "v_init": v_init, "timeline": tl, "pre": pre}
+    sc = {"cfg": cfg, "call": call, "v_init": v_init, "timeline": tl, "pre": pre,
+          "caller": rng.choice(["trigger", "trigger", "service", "task"])}
+    if cfg["timeout"] is not None and rng.random() < 0.25:
+        sc["twice"] = True           # the same call made concurrently by two tasks (never cancelled, always ends)
+    return sc
 
 
 def cancel_slots(sc):
@@ -200,12 +225,33 @@ WITNESSES += [
 ]
 
 
+def _raw(tag, call_text, timeline, expect):
+    w = _w({}, timeline)
+    w.update({"raw_call": call_text, "expect": expect, "tag": tag})
+    return w
+
+
+# argument values the model does not express (negative timeout, 'startup' / 'shutdown' entries): judged by the oracle only
+ORACLE_ONLY = [
+    _raw("neg-timeout", "task.wait_until(event_trigger='e', timeout=-1)", [[2.25, ["e", 4]]], ["ret", 1100, "timeout"]),
+    _raw("neg-timeout", "task.wait_until(timeout=-1)", [], ["ret", 1100, "timeout"]),
+    _raw("startup-entry", "task.wait_until(time_trigger=['startup', 'once(2024/6/3 12:00:03)'])", [], ["ret", 3000, "time"]),
+    _raw("shutdown-entry", "task.wait_until(time_trigger=['shutdown'], event_trigger='e')", [[2.25, ["e", 2]]],
+         ["ret", 2250, "event 2"]),
+]
+
+
 def gen_cases(rng, tier, search):
     n = {"quick": 110, "thorough": 800}[tier]
     if search:
         n = {"quick": 300, "thorough": 1200}[tier]
     cases = []
     if not search:
+        for w in ORACLE_ONLY:
+            for legacy in (True, False):
+                p = json.loads(json.dumps(w))
+                p["legacy"] = legacy
+                cases.append(Case(p, None, tags=("legacy" if legacy else "new", "witness", "oracle-only")))
         for w in WITNESSES:
             for legacy in (True, False):
                 p = json.loads(json.dumps(w))
@@ -213,7 +259,9 @@ def gen_cases(rng, tier, search):
                 cases.append(Case(p, None, tags=("legacy" if legacy else "new", "witness")))
     for _ in range(n):
         sc = gen_scenario(rng)
-        if tier == "thorough" and not search:
+        if sc.get("twice"):
+            variants = [None]
+        elif tier == "thorough" and not search:
             variants = [None] + rng.sample(cancel_slots(sc), 3)
         else:
             variants = [rng.choice(cancel_slots(sc)[:7]) if rng.random() < 0.5 else None]
@@ -237,7 +285,12 @@ def call_src(cfg):
     st = cfg["state"]
     if st:
         src = fn_src(st["fn"], "int(pyscript.v)") if st["parse_ok"] else "pyscript.v =="
-        args.append(f"state_trigger={src!r}")
+        if st.get("fn2") is not None and st["parse_ok"]:
+            args.append(f"state_trigger={[src, fn_src(st['fn2'], 'int(pyscript.v)')]!r}")
+        elif st.get("as_list"):
+            args.append(f"state_trigger={[src]!r}")
+        else:
+            args.append(f"state_trigger={src!r}")
         if st["check_now"] is not None:
             args.append(f"state_check_now={st['check_now']}")
         if st.get("hold") is not None:
@@ -246,32 +299,47 @@ def call_src(cfg):
             args.append(f"state_hold_false={st['hold_false']}")
     tm = cfg["time"]
     if tm:
-        if tm[0] == "abs":
-            args.append(f"time_trigger='once(2024/6/3 12:00:{tm[1]:02d})'")
+        spec = f"once(2024/6/3 12:00:{tm[1]:02d})" if tm[0] == "abs" else f"once(now + {tm[1]}s)"
+        form = tm[2] if len(tm) > 2 else None
+        if form == "list":
+            args.append(f"time_trigger={[spec]!r}")
+        elif form == "list+expired":
+            args.append(f"time_trigger={['once(2024/6/3 11:59:58)', spec, 'once(2024/6/3 12:00:00)']!r}")
         else:
-            args.append(f"time_trigger='once(now + {tm[1]}s)'")
+            args.append(f"time_trigger={spec!r}")
     ev = cfg["event"]
     if ev:
         if not ev["parse_ok"]:
             args.append("event_trigger=['e', '1 +']")
         elif ev["fn"] is None:
-            args.append("event_trigger='e'")
+            args.append("event_trigger=['e']" if ev.get("as_list") else "event_trigger='e'")
         else:
             args.append(f"event_trigger=['e', {fn_src(ev['fn'], 'x')!r}]")
     mq = cfg["mqtt"]
     if mq:
-        args.append("mqtt_trigger='t1'" if mq["parse_ok"] else "mqtt_trigger=['t1', '1 +']")
+        args.append(("mqtt_trigger=['t1']" if mq.get("as_list") else "mqtt_trigger='t1'") if mq["parse_ok"]
+                    else "mqtt_trigger=['t1', '1 +']")
     if cfg["timeout"] is not None:
         args.append(f"timeout={cfg['timeout']}")
     return "task.wait_until(" + ", ".join(args) + ")"
 
 
 def script_src(p):
-    out = ["tid = None", "",
-           "@event_trigger('go')", "def waiter(**kw):", "    global tid", "    tid = task.current_task()",
-           "    rec('call')", "    try:", f"        r = {call_src(p['cfg'])}", "        rec('ret', r)",
-           "    except Exception as e:", "        rec('exc', type(e).__name__)", "",
-           "@event_trigger('kill')", "def killer(**kw):", "    task.cancel(tid)", ""]
+    call = p.get("raw_call") or call_src(p["cfg"])
+    body = ["    global tid", "    tid = task.current_task()", "    rec('call')", "    try:", f"        r = {call}",
+            "        rec('ret', r)", "    except Exception as e:", "        rec('exc', type(e).__name__)", ""]
+    caller = p.get("caller", "trigger")
+    out = ["tid = None", ""]
+    if caller == "service":
+        out += ["@service", "def waiter(**kw):"] + body
+    elif caller == "task":
+        out += ["def waiter():"] + body + ["@event_trigger('go')", "def starter(**kw):", "    task.create(waiter)", ""]
+    else:
+        out += ["@event_trigger('go')", "def waiter(**kw):"] + body
+    if p.get("twice"):
+        out += ["@event_trigger('go')", "def waiter2(**kw):", "    try:", f"        r = {call}", "        rec('ret2', r)",
+                "    except Exception as e:", "        rec('exc2', type(e).__name__)", ""]
+    out += ["@event_trigger('kill')", "def killer(**kw):", "    task.cancel(tid)", ""]
     if p["pre"]["state_fn"]:
         out += ["@state_trigger(\"pyscript.v == '77'\")", "def other_s(**kw):", "    pass", ""]
     if p["pre"]["event_fn"]:
@@ -318,7 +386,11 @@ def run_scenario(p):
         state = {"after": None, "killed": False, "called": False}
 
         def ended():
-            return state["called"] and (state["killed"] or any(r[1] in ("ret", "exc") for r in env.records))
+            if not state["called"]:
+                return False
+            first = state["killed"] or any(r[1] in ("ret", "exc") for r in env.records)
+            second = not p.get("twice") or any(r[1] in ("ret2", "exc2") for r in env.records)
+            return first and second
 
         def note():
             # the tables "after the task ended": first look after the waiter has returned / raised / been cancelled
@@ -342,7 +414,10 @@ def run_scenario(p):
         await play(pre)
         await env.settle_until(p["call"])
         before = snapshot()
-        env.hass.bus.async_fire("go", {})
+        if p.get("caller") == "service":
+            env.hass.async_create_task(env.hass.services.async_call("pyscript", "waiter", {}, blocking=False))
+        if p.get("caller") != "service" or p.get("twice"):
+            env.hass.bus.async_fire("go", {})
         state["called"] = True
         await env.settle(0)
         note()
@@ -362,9 +437,12 @@ def run_scenario(p):
         return {"crash": f"{type(e).__name__}: {e} {traceback.format_exc()[-300:]}"}
 
 
-def canon_exit(p, obs):
+def canon_exit(p, obs, second=False):
     """(kind, t_ms, detail) from the records"""
     recs = obs["records"]
+    if second:
+        recs = [[r[0], "call"] for r in recs if r[1] == "call"] + [[r[0], r[1][:-1]] + list(r[2:]) for r in recs
+                                                                   if r[1] in ("ret2", "exc2")]
     if not any(r[1] == "call" for r in recs):
         return ("nocall", 0, "")
     for r in recs:
@@ -405,12 +483,13 @@ def show_exit(e):
 def build_line(p, before):
     cfg = p["cfg"]
     st = cfg["state"]
-    st_sx = "none" if not st else ["st", fn_sx(state_model_fn(st["fn"])), 0 if st["check_now"] is False else 1,
+    st_fn = st and (["or", st["fn"], st["fn2"]] if st.get("fn2") is not None else st["fn"])
+    st_sx = "none" if not st else ["st", fn_sx(state_model_fn(st_fn)), 0 if st["check_now"] is False else 1,
                                    1 if st["parse_ok"] else 0,
                                    "none" if st.get("hold") is None else ms(st["hold"]),
                                    "none" if st.get("hold_false") is None else ms(st["hold_false"])]
     tm = cfg["time"]
-    tm_sx = "none" if not tm else ([tm[0], ms(tm[1])])
+    tm_sx = "none" if not tm else ([tm[0], ms(tm[1])])       # expired list entries never fire: the model sees the live one
     ev = cfg["event"]
     ev_sx = "none" if not ev else ["ev", "nofilt" if ev["fn"] is None else fn_sx(ev["fn"]), 1 if ev["parse_ok"] else 0]
     mq = cfg["mqtt"]
@@ -438,6 +517,8 @@ def expected_exit(p):
     def st_eval(v):
         if v == ABC:
             raise ValueError()
+        if st.get("fn2") is not None:
+            return fn_py(["or", st["fn"], st["fn2"]], v)
         return fn_py(st["fn"], v)
 
     # ---- the state condition in the terms of the documentation: the expression has to turn true - after having been
@@ -528,7 +609,17 @@ def oracle(p, obs, got):
     cfg = p["cfg"]
     if got[0] == "nocall":
         return f"{sub}: the waiting function was never started"
-    exp = expected_exit(p)
+    if p.get("expect") is not None:
+        exp = tuple(p["expect"])
+        if exp != got:
+            return f"{sub}: {p['tag']}: exit differs: got {got[0]} {got[2]} at {got[1]}, expected {exp[0]} {exp[2]} at {exp[1]}"
+        exp = None
+    else:
+        exp = expected_exit(p)
+    if p.get("twice") and exp is not None:
+        got2 = canon_exit(p, obs, second=True)
+        if got2 != exp:
+            return f"{sub}: second concurrent call: exit differs: got {got2[0]} {got2[2]}, expected {exp[0]} {exp[2]}"
     if exp is not None and exp != got:
         return f"{sub}: exit differs from the first qualifying trigger: got {got[0]} {got[2]}, expected {exp[0]} {exp[2]}" \
                + (" at another instant" if got[0] == exp[0] and got[2] == exp[2] else "")
@@ -550,7 +641,8 @@ def _run_one(p):
     got = canon_exit(p, obs)
     tb = "(tb " + " ".join(str(x) for x in obs["after"]) + ")"
     impl = f"ok {show_exit(got)} {tb}"
-    return {"impl": impl, "line": build_line(p, obs["before"]), "oracle": oracle(p, obs, got), "kind": got[0] + " " + got[2].split(" ")[0]}
+    line = None if p.get("raw_call") else build_line(p, obs["before"])
+    return {"impl": impl, "line": line, "oracle": oracle(p, obs, got), "kind": got[0] + " " + got[2].split(" ")[0]}
 
 
 _WARM = []
@@ -584,8 +676,10 @@ def verdict(c):
     return o
 
 
-# no deviation of the tree is open any more: nothing is mapped onto a known-finding signature
-SIGS = []
+SIGS = [
+    (r"^new: neg-timeout: exit differs", "new: a negative timeout never expires when another trigger is given"),
+    (r"^new: (startup|shutdown)-entry: exit differs", "new: 'startup' / 'shutdown' entries of time_trigger are acted upon inside task.wait_until"),
+]
 
 
 def classify(c, reason):
@@ -613,6 +707,29 @@ def extra_coverage(cases):
             args["timeout"] += 1
         if cfg["state"] and cfg["state"]["check_now"] is False:
             args["check_now_false"] += 1
+        pl = c.payload
+        for k in ("state", "event", "mqtt"):
+            if cfg[k] and cfg[k].get("as_list"):
+                args[k + "_as_list_of_one"] = args.get(k + "_as_list_of_one", 0) + 1
+        if cfg["state"] and cfg["state"].get("fn2") is not None:
+            args["state_list_of_two"] = args.get("state_list_of_two", 0) + 1
+        if cfg["time"] and len(cfg["time"]) > 2:
+            args["time_" + cfg["time"][2]] = args.get("time_" + cfg["time"][2], 0) + 1
+        if cfg["timeout"] is not None and 0 < cfg["timeout"] < 0.01:
+            args["timeout_tiny"] = args.get("timeout_tiny", 0) + 1
+        if isinstance(cfg["timeout"], float) and cfg["timeout"] == 0:
+            args["timeout_0.0"] = args.get("timeout_0.0", 0) + 1
+        args["caller_" + pl.get("caller", "trigger")] = args.get("caller_" + pl.get("caller", "trigger"), 0) + 1
+        if pl.get("twice"):
+            args["twice_concurrently"] = args.get("twice_concurrently", 0) + 1
+        if pl.get("raw_call"):
+            args["oracle_only_" + pl["tag"]] = args.get("oracle_only_" + pl["tag"], 0) + 1
+        for fk in ("state", "event"):
+            if cfg[fk] and cfg[fk].get("fn") and "truthy" in json.dumps(cfg[fk]["fn"]):
+                args[fk + "_filter_value_truthiness"] = args.get(fk + "_filter_value_truthiness", 0) + 1
+        k = pl.get("_kind", "")
+        if any(it[0] == "c" for _, it in pl["timeline"]) and not k.startswith("cancelled") and not k.startswith("waiting"):
+            args["cancel_after_the_call_ended"] = args.get("cancel_after_the_call_ended", 0) + 1
         if cfg["state"] and cfg["state"].get("hold") is not None:
             args["state_hold"] = args.get("state_hold", 0) + 1
             if cfg["timeout"] is not None:
